@@ -620,6 +620,104 @@ pub enum UvOutcome {
     Err(u8),
 }
 
+/// `UvOutcome::Err(UV_PANICS)`: the scripted user-validation method panics instead of answering
+/// (user-supplied code may panic; the embedder may catch the unwind and go on using the instance)
+pub const UV_PANICS: u8 = 0xEE;
+
+/// A store that panics at its k-th call (0-based, counting find / save / update), once, and works
+/// like the wrapped store otherwise.
+pub struct PanicStore<S> {
+    pub inner: S,
+    pub at: usize,
+    pub calls: AtomicUsize,
+}
+impl<S> PanicStore<S> {
+    pub fn new(inner: S, at: usize) -> Self {
+        Self { inner, at, calls: AtomicUsize::new(0) }
+    }
+    fn tick(&self, what: &str) {
+        if self.calls.fetch_add(1, Ordering::SeqCst) == self.at {
+            panic!("injected: the store panicked in {what}");
+        }
+    }
+}
+#[async_trait::async_trait]
+impl<S: CredentialStore<PasskeyItem = Passkey> + Send + Sync> CredentialStore for PanicStore<S> {
+    type PasskeyItem = Passkey;
+    async fn find_credentials(&self, ids: Option<&[PublicKeyCredentialDescriptor]>, rp_id: &str) -> Result<Vec<Passkey>, StatusCode> {
+        self.tick("find_credentials");
+        self.inner.find_credentials(ids, rp_id).await
+    }
+    async fn save_credential(&mut self, cred: Passkey, user: PublicKeyCredentialUserEntity, rp: PublicKeyCredentialRpEntity, options: Options) -> Result<(), StatusCode> {
+        self.tick("save_credential");
+        self.inner.save_credential(cred, user, rp, options).await
+    }
+    async fn update_credential(&mut self, cred: Passkey) -> Result<(), StatusCode> {
+        self.tick("update_credential");
+        self.inner.update_credential(cred).await
+    }
+    async fn get_info(&self) -> StoreInfo {
+        self.inner.get_info().await
+    }
+}
+
+/// A store with a switch the harness flips between operations: 0 works; 1 the next update_credential
+/// fails (KeyStoreFull) without being executed; 2 the next save_credential is executed but answered
+/// with the status in `status` (an acknowledgement lost on the way); 3 the next find_credentials
+/// panics; 4 the next save / update panics; the switch resets itself.
+#[derive(Clone)]
+pub struct SwitchStore<S> {
+    pub inner: S,
+    pub switch: Arc<std::sync::atomic::AtomicU8>,
+    pub status: u8,
+    pub persisted_saves: Arc<AtomicUsize>,
+}
+impl<S> SwitchStore<S> {
+    pub fn new(inner: S) -> Self {
+        Self { inner, switch: Default::default(), status: 0x28, persisted_saves: Default::default() }
+    }
+}
+#[async_trait::async_trait]
+impl<S: CredentialStore<PasskeyItem = Passkey> + Send + Sync> CredentialStore for SwitchStore<S> {
+    type PasskeyItem = Passkey;
+    async fn find_credentials(&self, ids: Option<&[PublicKeyCredentialDescriptor]>, rp_id: &str) -> Result<Vec<Passkey>, StatusCode> {
+        if self.switch.compare_exchange(3, 0, Ordering::SeqCst, Ordering::SeqCst).is_ok() {
+            panic!("injected: the store panicked in find_credentials");
+        }
+        self.inner.find_credentials(ids, rp_id).await
+    }
+    async fn save_credential(&mut self, cred: Passkey, user: PublicKeyCredentialUserEntity, rp: PublicKeyCredentialRpEntity, options: Options) -> Result<(), StatusCode> {
+        if self.switch.compare_exchange(4, 0, Ordering::SeqCst, Ordering::SeqCst).is_ok() {
+            panic!("injected: the store panicked in save_credential");
+        }
+        let r = self.inner.save_credential(cred, user, rp, options).await;
+        if r.is_ok() {
+            self.persisted_saves.fetch_add(1, Ordering::SeqCst);
+        }
+        if self.switch.compare_exchange(2, 0, Ordering::SeqCst, Ordering::SeqCst).is_ok() {
+            return Err(StatusCode::from(self.status));
+        }
+        r
+    }
+    async fn update_credential(&mut self, cred: Passkey) -> Result<(), StatusCode> {
+        if self.switch.compare_exchange(4, 0, Ordering::SeqCst, Ordering::SeqCst).is_ok() {
+            panic!("injected: the store panicked in update_credential");
+        }
+        if self.switch.compare_exchange(1, 0, Ordering::SeqCst, Ordering::SeqCst).is_ok() {
+            return Err(Ctap2Error::KeyStoreFull.into());
+        }
+        self.inner.update_credential(cred).await
+    }
+    async fn get_info(&self) -> StoreInfo {
+        self.inner.get_info().await
+    }
+}
+impl<S: Inspect> Inspect for SwitchStore<S> {
+    fn recs(&self) -> Vec<Rec> {
+        self.inner.recs()
+    }
+}
+
 /// The slow-user pass (main.rs): while it is on, every scripted user step advances the thread's
 /// virtual clock by this many seconds and suspends at least once afterwards, so that code polling
 /// a deadline around the user step sees the time that passed.
@@ -677,6 +775,7 @@ impl UserValidationMethod for ScriptedUv {
         yield_n(self.yields.max(usize::from(slow != 0))).await;
         let (r, logged) = match self.log.answer().unwrap_or(self.outcome) {
             UvOutcome::Ok { presence: p, verification: v } => (Ok(UserCheck { presence: p, verification: v }), Ok((p, v))),
+            UvOutcome::Err(UV_PANICS) => panic!("injected: the user-validation method panicked"),
             UvOutcome::Err(b) => {
                 let e = Ctap2Error::try_from(b).unwrap_or(Ctap2Error::OperationDenied);
                 (Err(e), Err(b))
